@@ -365,9 +365,13 @@ func c19Parsers(c *mc.Ctx, st *Stream, refPk []*ref.Pkt) {
 		calls := 0
 		bad := ""
 		next := map[uint16]int{}
+		var kept [][]*astits.Packet // the slices as handed over (not copied), re-examined when the stream has ended
+		var keptSnap []string
 		parser := func(ps []*astits.Packet) ([]*astits.DemuxerData, bool, error) {
 			call := calls
 			calls++
+			kept = append(kept, ps)
+			keptSnap = append(keptSnap, mc.Canon(ps))
 			if len(ps) == 0 {
 				bad = "parser called with an empty packet group"
 				return nil, false, nil
@@ -428,6 +432,12 @@ func c19Parsers(c *mc.Ctx, st *Stream, refPk []*ref.Pkt) {
 		}
 		if bad != "" {
 			rep("parser-argument", bad)
+		}
+		for k := range kept {
+			if mc.Canon(kept[k]) != keptSnap[k] {
+				rep("parser-argument-changed-later", fmt.Sprintf("the packet slice handed to the parser for unit %d was modified by later calls (a parser that keeps what it was given sees another unit's packets)", k))
+				break
+			}
 		}
 		if mode < 0 && st.Name != "headless-lookalikes" { // units cut by a counter gap are never assembled: C06's subject
 			if mc.Canon(groups) != mc.Canon(expGroups) {
